@@ -309,6 +309,23 @@ void group_op(Ctx& cx, G g, Flat)
     case G_ITER:
         for(auto it = g.begin(); it != g.end(); ++it) record_entry(cx, *it);
         break;
+    case G_ITER_INDEXED:
+        if constexpr(Flat::value)
+        {
+            const auto n = g.size();
+            auto b = g.begin();
+            for(size_type i = 0; i < n; i++)
+            {
+                record_entry(cx, *(b + static_cast<std::ptrdiff_t>(i)));
+                record_entry(cx, b[static_cast<std::ptrdiff_t>(i)]);
+                auto e = g.end();
+                e -= static_cast<std::ptrdiff_t>(i + 1);
+                record_entry(cx, *e);
+            }
+        }
+        else
+            rs.unsupported = true;
+        break;
     case G_INDEX:
         if constexpr(Flat::value)
         {
